@@ -86,6 +86,11 @@ impl RealWorld
     pub fn write(&self, p: &str, data: &[u8]) -> Result<(), String>
     {
         pause();
+        // the user replaces the file: a symbolic link at that path is replaced, not written through
+        if std::fs::symlink_metadata(self.path(p)).map(|m| m.file_type().is_symlink()).unwrap_or(false)
+        {
+            let _ = std::fs::remove_file(self.path(p));
+        }
         std::fs::write(self.path(p), data).map_err(|e| format!("write {}: {}", p, e))
     }
 
@@ -229,6 +234,31 @@ impl RealWorld
             }
         }
         let mut out = RealSnap::new();
+        walk(&self.dir, &self.dir, &mut out);
+        out
+    }
+
+    /// (modification time in ns, permission bits) of every regular file or link-to-file below the scratch directory
+    pub fn stat_all(&self) -> BTreeMap<String, (u128, u32)>
+    {
+        fn walk(base: &Path, dir: &Path, out: &mut BTreeMap<String, (u128, u32)>)
+        {
+            if let Ok(rd) = std::fs::read_dir(dir)
+            {
+                for e in rd.flatten()
+                {
+                    let p = e.path();
+                    if p.is_dir() { walk(base, &p, out); }
+                    else if let Ok(m) = std::fs::metadata(&p)
+                    {
+                        use std::os::unix::fs::PermissionsExt;
+                        let t = m.modified().ok().and_then(|t| t.duration_since(std::time::UNIX_EPOCH).ok()).map(|d| d.as_nanos()).unwrap_or(0);
+                        out.insert(p.strip_prefix(base).unwrap().to_string_lossy().to_string(), (t, m.permissions().mode() & 0o7777));
+                    }
+                }
+            }
+        }
+        let mut out = BTreeMap::new();
         walk(&self.dir, &self.dir, &mut out);
         out
     }
